@@ -1231,3 +1231,65 @@ Proof.
   destruct (signable_bytes (payload_asdict p')) as [msg|] eqn:E; cbn [bind] in H; [|discriminate H].
   inversion H; subst p'. split; [reflexivity|]. exists msg. exact E.
 Qed.
+
+(* ------------------------------------------------------------------ *)
+(** * Tampered content: the error is SignatureVerificationError *)
+
+Theorem tamper_content_mb_err : forall sig_ok now_s old rest p1 p2 key kid pub v m1 m2,
+  ideal sig_ok -> sslib_key_for key kid pub ->
+  (forall s, In s old -> sig_matches key s = false) ->
+  signable_bytes (payload_asdict p1) = Ok m1 -> signable_bytes (payload_asdict p2) = Ok m2 ->
+  wf_json (payload_asdict p1) = true -> wf_json (payload_asdict p2) = true ->
+  norm (payload_asdict p1) <> norm (payload_asdict p2) ->
+  sig_ok pub m1 v = true ->
+  verify_signature sig_ok now_s (Metablock (old ++ sslib_entry kid v :: rest) p2) key = Err ESignature.
+Proof.
+  intros sig_ok now_s old rest p1 p2 key kid pub v m1 m2 Hideal Hkey Hold M1 M2 W1 W2 Hne Hv.
+  rewrite (verify_mb_first_sslib sig_ok now_s old rest p2 key kid pub v m2 Hkey Hold M2).
+  destruct (sig_ok pub m2 v) eqn:E; [|rewrite andb_false_r; reflexivity].
+  exfalso. apply Hne. pose proof (Hideal pub m1 m2 v Hv E) as Em. subst m2.
+  exact (signable_bytes_inj _ _ m1 W1 W2 M1 M2).
+Qed.
+
+Theorem tamper_content_env_err : forall sig_ok now_s sigs pb1 pt1 pb2 pt2 parsed2 key kid pub,
+  sslib_key_for key kid pub ->
+  (forall s, In s sigs -> forall m, sslib_verify sig_ok s key m = Ok true -> m = pae (utf8 pt1) pb1) ->
+  (pb2 <> pb1 \/ pt2 <> pt1) ->
+  verify_signature sig_ok now_s (Envelope pb2 pt2 sigs parsed2) key = Err ESignature.
+Proof.
+  intros sig_ok now_s sigs pb1 pt1 pb2 pt2 parsed2 key kid pub Hkey Hall Hne.
+  apply (verify_env_none sig_ok now_s pb2 pt2 sigs parsed2 key kid pub Hkey).
+  intros s Hin Hs. pose proof (Hall s Hin _ Hs) as E. apply pae_inj in E. destruct E as [Et Ep].
+  apply utf8_inj_gen in Et. destruct Hne as [H|H]; congruence.
+Qed.
+
+(* ------------------------------------------------------------------ *)
+(** * dump, then load (with the text layer and the strict loader) *)
+
+Section DumpLoad.
+  Variable b64enc : list N -> str.
+  Variable b64dec : str -> option (list N).
+  Variable dumps : json -> list N.
+  Variable loads : list N -> option json.
+  Hypothesis Hloads : forall v, loads (dumps v) = Some v.
+
+  Theorem dump_load_mb : forall sigs p,
+    read_payload_s (payload_asdict p) = Ok p -> sigs_wellformed sigs ->
+    exists file, dump b64enc dumps (Metablock sigs p) = Ok file /\ load b64dec loads file = Ok (Metablock sigs p).
+  Proof.
+    intros sigs p Hp Hs. destruct (loaded_is_signable _ _ Hp) as [Hp' [msg Hm]].
+    eexists. split; [reflexivity|]. unfold load. rewrite Hloads. unfold from_dict_s.
+    rewrite (from_dict_to_dict_mb b64enc b64dec loads sigs p _ Hp' Hs eq_refl). cbn [bind].
+    unfold check_signable. rewrite Hm. reflexivity.
+  Qed.
+
+  Theorem dump_load_env : forall md,
+    (forall b, b64dec (b64enc b) = Some b) -> wf_envelope loads md ->
+    exists file, dump b64enc dumps md = Ok file /\ load b64dec loads file = Ok md.
+  Proof.
+    intros md Hb Hwf. destruct (from_dict_to_dict_env b64enc b64dec loads md Hb Hwf) as [d [E1 E2]].
+    exists (dumps d). split; [unfold dump; rewrite E1; reflexivity|].
+    unfold load. rewrite Hloads. unfold from_dict_s. rewrite E2. cbn [bind].
+    destruct md; [contradiction|reflexivity].
+  Qed.
+End DumpLoad.
